@@ -784,7 +784,8 @@ def rule_round7(repo, rep):
                           (f"`{t[:100]}`: for (semantic valid, supported) = {[(a, b) for a, b, _ in wrong]} the rewrite {'returns' if wrong[0][2] else 'goes ahead'}: "
                            "a merged operator that violates a listed constraint (batch 2, a dimension of 70000) is put on the NPU") if wrong else "")
     if n < 1:
-        raise AnalysisError("tflite_graph_optimiser: no trial guard (semantic valid and supported) found")
+        rep.bad("C16-h", "ethosu/vela/tflite_graph_optimiser.py:merge_dequant_lut_quant", "the merge is guarded by a test of the trial operator (semantic valid and supported)",
+                "no `if <semantic valid .. supported>: return` guard is left in the graph optimiser: the merge goes ahead whatever the checks say")
     ex = repo.mod("extract_npu_subgraphs")
     f = ex.func("extract_subgraph")
     site = "ethosu/vela/extract_npu_subgraphs.py:extract_subgraph"
